@@ -51,6 +51,7 @@ func labels(thorough bool) []label {
 	ls := []label{
 		{name: "a", kind: memfs.Dir},
 		{name: "a", kind: memfs.File, data: "x"},
+		{name: "a.d", kind: memfs.Dir}, // "a" is a string prefix of "a.d": separator-unaware prefix matching would confuse them
 		{name: "b.txt", kind: memfs.File, data: "x"},
 		{name: "b.txt", kind: memfs.File, data: "xxxxx"},
 		{name: "b.txt", kind: memfs.Dir},
@@ -839,7 +840,7 @@ func main() {
 	r.Set("bound", map[string]any{"max_nodes_completed": completedNodes, "max_option_deviations": maxDev, "extractor_sets": len(exSets)})
 	r.Assume("reference dispatch model (this file, ~200 lines) states git's .gitignore semantics for the 5-pattern alphabet and the skip rules of the property text")
 	r.Assume("regular-expression and glob *matching* are taken from the same libraries the implementation uses; only the dispatch logic is under test")
-	r.Finish(fmt.Sprintf("every tree with <=%d labelled nodes (names a, b.txt, 'd e', -x, .gitignore(5 bodies), pkg.json; dirs, files of size 0/1/5, exec bit, symlinks to file/dir/dangling, named pipe) x every option vector with <=%d deviations from the defaults (skip list, regex, glob, gitignore, requested paths incl. dir+file and '.', sub-dir cut-off, max size 1/5, symlinks, absolute paths, ReadDirFile on/off) x %d extractor sets; Scanner.Scan over memfs vs reference dispatch model; non-trivial = some option active and >=1 extraction expected", maxNodes, maxDev, len(exSets)), completedNodes == maxNodes)
+	r.Finish(fmt.Sprintf("every tree with <=%d labelled nodes (names a, a.d, b.txt, 'd e', -x, .gitignore(5 bodies), pkg.json; dirs, files of size 0/1/5, exec bit, symlinks to file/dir/dangling, named pipe) x every option vector with <=%d deviations from the defaults (skip list, regex, glob, gitignore, requested paths incl. dir+file and '.', sub-dir cut-off, max size 1/5, symlinks, absolute paths, ReadDirFile on/off) x %d extractor sets; Scanner.Scan over memfs vs reference dispatch model; non-trivial = some option active and >=1 extraction expected", maxNodes, maxDev, len(exSets)), completedNodes == maxNodes)
 }
 
 func replay(r *ev.Run, p string) {
